@@ -17,6 +17,7 @@ theorem Frame.trans {a b c : World} (h1 : Frame a b) (h2 : Frame b c) : Frame a 
   exact ⟨e2.trans e1, m2.trans m1, c1 ++ c2, by rw [k2, k1, List.append_assoc]⟩
 
 theorem Frame.storeMeta (w : World) (k st : Str) : Frame w (w.storeMeta k st) := ⟨by simp, by simp, [], by simp⟩
+theorem Frame.metaIf (w : World) (uc : Bool) (k st : Str) : Frame w (w.metaIf uc k st) := ⟨by simp, by simp, [], by simp⟩
 theorem Frame.store (w : World) (st : EState) : Frame w (w.store st) := ⟨by simp, by simp, [], by simp⟩
 theorem Frame.remove (w : World) (k : Str) : Frame w (w.remove k) := ⟨by simp, by simp, [], by simp⟩
 theorem Frame.log (w : World) (c : Str) : Frame w (w.log c) := ⟨by simp, by simp, [c], by simp⟩
@@ -26,10 +27,10 @@ theorem Frame.logCall (w : World) (st sig args) : Frame w (w.logCall st sig args
   · exact Frame.refl w
   · exact Frame.log w _
 
-theorem Frame.subW (raw o) (w : World) : Frame w (subW raw o w) := by
+theorem Frame.subW (uc raw o) (w : World) : Frame w (subW uc raw o w) := by
   unfold Liquer.subW; split
-  · exact Frame.storeMeta _ _ _
-  · exact Frame.storeMeta _ _ _
+  · exact Frame.metaIf _ _ _ _
+  · exact Frame.metaIf _ _ _ _
   · exact Frame.refl w
 
 theorem Frame.admitW (uc key st3) (w : World) : Frame w (admitW uc key st3 w) := by
@@ -54,19 +55,19 @@ structure FrameAt (env : Env) (n : Nat) : Prop where
   act : ∀ w st a raw parent extra uc, Frame w (evalAction env n w st a raw parent extra uc).1
   params : ∀ w ps raw parent, Frame w (evalParams env n w ps raw parent).1
 
-theorem call_frame {env : Env} {n : Nat} (ih : FrameAt env n) (w1 : World) (st act raw sig x) :
-    Frame w1 (evalCall env n w1 st act raw sig x).1 := by
+theorem call_frame {env : Env} {n : Nat} (ih : FrameAt env n) (w1 : World) (st act raw sig x uc) :
+    Frame w1 (evalCall env n w1 st act raw sig x uc).1 := by
   unfold evalCall
   split
   · exact Frame.refl _
-  · exact Frame.storeMeta _ _ _
+  · exact Frame.metaIf _ _ _ _
   · split
     · exact Frame.logCall _ _ _ _
-    · exact (Frame.logCall _ _ _ _).trans (Frame.storeMeta _ _ _)
-    · exact (Frame.logCall _ _ _ _).trans (Frame.storeMeta _ _ _)
-    · exact (Frame.logCall _ _ _ _).trans (Frame.storeMeta _ _ _)
-    · exact (Frame.logCall _ _ _ _).trans (Frame.storeMeta _ _ _)
-    · exact ((Frame.logCall _ _ _ _).trans (ih.text _ _ _)).trans (Frame.subW _ _ _)
+    · exact (Frame.logCall _ _ _ _).trans (Frame.metaIf _ _ _ _)
+    · exact (Frame.logCall _ _ _ _).trans (Frame.metaIf _ _ _ _)
+    · exact (Frame.logCall _ _ _ _).trans (Frame.metaIf _ _ _ _)
+    · exact (Frame.logCall _ _ _ _).trans (Frame.metaIf _ _ _ _)
+    · exact ((Frame.logCall _ _ _ _).trans (ih.text _ _ _)).trans (Frame.subW _ _ _ _)
 
 theorem link_frame {env : Env} {n : Nat} (ih : FrameAt env n) (w : World) (lq : Query) (parent : Str) :
     Frame w (evalLink env n w lq parent).1 := by
@@ -111,19 +112,19 @@ theorem act_frame_step {env : Env} {n : Nat} (ih : FrameAt env n) (w : World) (s
     (raw parent : Str) (extra : Extra) (uc : Bool) :
     Frame w (evalAction env (n+1) w st a raw parent extra uc).1 := by
   rw [evalAction_succ]
-  have h0 := Frame.storeMeta w raw (s "evaluation")
+  have h0 := Frame.metaIf w uc raw (s "evaluation")
   split
   · exact h0
   · split
     · exact h0
     · split
-      · exact h0.trans (Frame.storeMeta _ _ _)
-      · have h1 := ih.params (w.storeMeta raw (s "evaluation")) a.params raw parent
-        generalize evalParams env n (w.storeMeta raw (s "evaluation")) a.params raw parent = x at h1 ⊢
+      · exact h0.trans (Frame.metaIf _ _ _ _)
+      · have h1 := ih.params (w.metaIf uc raw (s "evaluation")) a.params raw parent
+        generalize evalParams env n (w.metaIf uc raw (s "evaluation")) a.params raw parent = x at h1 ⊢
         rcases x with ⟨w1, r⟩
         cases r with
         | inr o => exact h0.trans h1
-        | inl given => exact (h0.trans h1).trans (call_frame ih _ _ _ _ _ _)
+        | inl given => exact (h0.trans h1).trans (call_frame ih _ _ _ _ _ _ _)
 
 theorem text_frame_step {env : Env} {n : Nat} (ih : FrameAt env n) (w : World) (t : Str) (ug : Bool) :
     Frame w (evalText env (n+1) w t ug).1 := by
@@ -137,7 +138,7 @@ theorem post_frame {env : Env} {n : Nat} (ih : FrameAt env n) (w1 : World) (st p
   unfold evalPost
   split
   · exact Frame.refl _
-  · exact (Frame.storeMeta _ _ _).trans (Frame.fileW _ _ _ _)
+  · exact (Frame.metaIf _ _ _ _).trans (Frame.fileW _ _ _ _)
   · next hd a =>
     have h1 := ih.act w1 st a raw parent extra uc
     cases (evalAction env n w1 st a raw parent extra uc).2 with
@@ -153,7 +154,7 @@ theorem after_frame {env : Env} {n : Nat} (ih : FrameAt env n) (w1 : World) (o p
   · exact Frame.refl _
   · exact Frame.refl _
   · split
-    · exact Frame.storeMeta _ _ _
+    · exact Frame.metaIf _ _ _ _
     · exact post_frame ih _ _ _ _ _ _ _ _
 
 theorem pre_frame {env : Env} {n : Nat} (ih : FrameAt env n) (w : World) (q raw input uc) :
@@ -161,7 +162,7 @@ theorem pre_frame {env : Env} {n : Nat} (ih : FrameAt env n) (w : World) (q raw 
   unfold evalPre
   split
   · exact Frame.refl _
-  · exact (Frame.storeMeta _ _ _).trans (ih.q _ _ _ _ _ _)
+  · exact (Frame.metaIf _ _ _ _).trans (ih.q _ _ _ _ _ _)
 
 theorem q_frame_step {env : Env} {n : Nat} (ih : FrameAt env n) (w : World) (q : Query) (raw : Str) (extra : Extra)
     (input : Option Val) (uc : Bool) :
